@@ -676,7 +676,17 @@ pub fn gen_cfg(prop: &str, seed: u64) -> RunCfg {
                         let open = Op::OpenWrite { p: P::new(&t), append, slot: 0 };
                         let mut probe = world.clone();
                         if matches!(probe.apply(&open), Want::Ok(_)) {
-                            let mut blk = vec![open];
+                            // sometimes a read handle on the same file stays open across the session
+                            // (its snapshot shares the stored buffer with the entry being replaced)
+                            let live_reader = world.m[0].file(&t).is_some() && g.rng.pct(35);
+                            let mut blk = vec![];
+                            if live_reader {
+                                blk.push(Op::OpenRead(P::new(&t), 1));
+                                if g.rng.pct(50) {
+                                    blk.push(Op::HRead(1, *g.rng.pick(&[1usize, 8192, READ_TO_END])));
+                                }
+                            }
+                            blk.push(open);
                             if g.rng.pct(50) {
                                 blk.push(Op::HWrite(0, g.payload()));
                             }
@@ -687,6 +697,9 @@ pub fn gen_cfg(prop: &str, seed: u64) -> RunCfg {
                                 blk.push(Op::HFlush(0));
                             }
                             blk.push(Op::HDrop(0));
+                            if live_reader {
+                                blk.push(Op::HDrop(1));
+                            }
                             for o in &blk {
                                 world.apply(o);
                             }
@@ -809,7 +822,7 @@ pub fn gen_cfg(prop: &str, seed: u64) -> RunCfg {
                                     ops.push(Op::OpenWrite { p: P::new(&t), append: g.rng.pct(40), slot: 2 + g.rng.below(2) as u8 })
                                 }
                             }
-                            3 | 4 => ops.push(Op::HRead(g.rng.below(2) as u8, *g.rng.pick(&[0usize, 1, 2, 7, 8192]))),
+                            3 | 4 => ops.push(Op::HRead(g.rng.below(2) as u8, *g.rng.pick(&[0usize, 1, 2, 7, 8192, READ_TO_END]))),
                             5 | 6 => {
                                 let w = *g.rng.pick(&[Whence::Start, Whence::Current, Whence::End]);
                                 let off = *g.rng.pick(&[0, 1, -1, len, -len, len + 1, -len - 1, i64::MIN, i64::MAX, i64::MIN + 1, -1 - len, 1i64 << 62]);
@@ -1101,7 +1114,7 @@ pub fn handle_script(g: &mut Gen, spec: &Spec) -> Vec<Op> {
             ops.push(Op::OpenRead(P::new(&p), 1));
             for _ in 0..g.rng.range(2, 10) {
                 if g.rng.pct(55) {
-                    ops.push(Op::HRead(1, *g.rng.pick(&[0usize, 1, 1, 2, 3, 7, 64, 4096, 8192, 70_000])));
+                    ops.push(Op::HRead(1, *g.rng.pick(&[0usize, 1, 1, 2, 3, 7, 64, 4096, 8192, 70_000, READ_TO_END])));
                 } else {
                     let w = *g.rng.pick(&[Whence::Start, Whence::Current, Whence::End]);
                     let mut off = offsets(g, flen);
@@ -1238,7 +1251,7 @@ pub fn reader_block(g: &mut Gen, m: &Model, slot: u8) -> Vec<Op> {
     let mut ops = vec![Op::OpenRead(P::new(&t), slot)];
     for _ in 0..g.rng.range(1, 6) {
         if g.rng.pct(50) {
-            let n = *g.rng.pick(&[0usize, 1, 2, 3, 7, 64, 8192]);
+            let n = *g.rng.pick(&[0usize, 1, 2, 3, 7, 64, 8192, READ_TO_END]);
             ops.push(Op::HRead(slot, n));
         } else {
             let off = *g.rng.pick(&[0, 1, -1, len, len + 1, len - 1, -len, -len - 1, 3, 100_000]);
